@@ -196,10 +196,11 @@ func (x *c03Interp) eval(fr *c03Frame, st *c03State, e ast.Expr) []c03EV {
 			case e.Op == token.ADD && a.K == c03KStr && b.K == c03KStr:
 				out = append(out, c03EV{o.st, &c03V{K: c03KStr, Str: a.Str + b.Str, T: t}})
 				continue
-			case a.K == c03KInt && b.K == c03KInt && (e.Op == token.ADD || e.Op == token.SUB || e.Op == token.MUL):
-				n := map[token.Token]int64{token.ADD: a.Int + b.Int, token.SUB: a.Int - b.Int, token.MUL: a.Int * b.Int}[e.Op]
-				out = append(out, c03EV{o.st, &c03V{K: c03KInt, Int: n, T: t}})
-				continue
+			case a.K == c03KInt && b.K == c03KInt:
+				if n, ok := c03IntOp(e.Op, a.Int, b.Int); ok {
+					out = append(out, c03EV{o.st, &c03V{K: c03KInt, Int: n, T: t}})
+					continue
+				}
 			}
 			u := x.unk(t)
 			u.From = o.vs
@@ -330,7 +331,7 @@ func (x *c03Interp) deref(st *c03State, v *c03V, t types.Type, at ast.Node, fr *
 func (x *c03Interp) alloc(st *c03State, content *c03V, ptrT types.Type, site ast.Node) *c03V {
 	x.nid++
 	st.heap[x.nid] = content
-	return &c03V{K: c03KPtr, Obj: x.nid, T: ptrT, Site: site}
+	return &c03V{K: c03KPtr, Obj: x.nid, T: ptrT, Site: site, Born: len(st.Trace)}
 }
 
 // evalLit evaluates a composite literal to a struct value or a list.
@@ -352,7 +353,7 @@ func (x *c03Interp) evalLit(fr *c03Frame, st *c03State, lit *ast.CompositeLit) [
 	for _, o := range x.evalList(fr, st, vals) {
 		switch u := t.Underlying().(type) {
 		case *types.Struct:
-			sv := &c03V{K: c03KStruct, T: t, Fields: map[*types.Var]*c03V{}}
+			sv := &c03V{K: c03KStruct, T: t, Fields: map[*types.Var]*c03V{}, Site: lit, Born: len(o.st.Trace)}
 			for i, el := range lit.Elts {
 				var f *types.Var
 				if kv, ok := el.(*ast.KeyValueExpr); ok {
@@ -375,7 +376,26 @@ func (x *c03Interp) evalLit(fr *c03Frame, st *c03State, lit *ast.CompositeLit) [
 			}
 			out = append(out, c03EV{o.st, sv})
 		case *types.Slice, *types.Array:
-			out = append(out, c03EV{o.st, &c03V{K: c03KList, T: t, Elems: o.vs, NonNil: true, Site: lit}})
+			l := &c03V{K: c03KList, T: t, Elems: o.vs, NonNil: true, Site: lit, Born: len(o.st.Trace)}
+			// a keyed literal ([...]T{k: v, ...}) is a table: remember the (constant) indexes
+			keyed, next := false, int64(0)
+			var keys []*c03V
+			for _, el := range lit.Elts {
+				if kv, ok := el.(*ast.KeyValueExpr); ok {
+					keyed = true
+					if tv, ok := info.Types[kv.Key]; ok && tv.Value != nil {
+						if k := c03ConstValue(tv); k.K == c03KInt {
+							next = k.Int
+						}
+					}
+				}
+				keys = append(keys, &c03V{K: c03KInt, Int: next, T: types.Typ[types.Int]})
+				next++
+			}
+			if keyed {
+				l.Keys = keys
+			}
+			out = append(out, c03EV{o.st, l})
 		case *types.Map:
 			m := &c03V{K: c03KList, T: t, Elems: o.vs, NonNil: true, Site: lit}
 			for _, el := range lit.Elts {
@@ -852,7 +872,7 @@ func (x *c03Interp) apply(fr *c03Frame, st *c03State, call *ast.CallExpr, fn *ty
 		if a.K == c03KRef {
 			if cur := x.refTarget(st, a, call, fr); cur == nil || (cur.K != c03KPtr && cur.K != c03KAddr && cur.K != c03KRef) {
 				u := x.unk(c03DerefT(a.T))
-				u.Call, u.Fn, u.From = call, fn, []*c03V{a}
+				u.Call, u.Fn, u.From = call, fn, append([]*c03V{a}, args...)
 				x.refStore(st, a, nil, u, call, fr)
 			}
 		}
@@ -862,7 +882,7 @@ func (x *c03Interp) apply(fr *c03Frame, st *c03State, call *ast.CallExpr, fn *ty
 				continue
 			}
 			u := x.unk(a.Var.Type())
-			u.Call, u.Fn, u.From = call, fn, []*c03V{a}
+			u.Call, u.Fn, u.From = call, fn, append([]*c03V{a}, args...)
 			st.vars[a.Var] = u
 		}
 	}
@@ -1039,8 +1059,8 @@ func c03MapLookup(m, key *c03V) (hit *c03V, known bool) {
 	if m == nil || m.K != c03KList || m.Base != nil || len(m.Keys) != len(m.Elems) || len(m.Keys) == 0 && !m.NonNil {
 		return nil, false
 	}
-	if _, isMap := m.T.Underlying().(*types.Map); !isMap {
-		return nil, false
+	if _, isMap := m.T.Underlying().(*types.Map); !isMap && len(m.Keys) == 0 {
+		return nil, false // a plain list: positional indexing is handled by the caller
 	}
 	if key.K != c03KStr && key.K != c03KOther && key.K != c03KInt {
 		return nil, false
@@ -1073,4 +1093,41 @@ func c03ConcreteMethod(recv *c03V, fn *types.Func) *types.Func {
 	obj, _, _ := types.LookupFieldOrMethod(recv.T, true, fn.Pkg(), fn.Name())
 	m, _ := obj.(*types.Func)
 	return m
+}
+
+// c03IntOp evaluates an integer operator on known values (int64 arithmetic, as the id packing of the library uses).
+func c03IntOp(op token.Token, a, b int64) (int64, bool) {
+	switch op {
+	case token.ADD:
+		return a + b, true
+	case token.SUB:
+		return a - b, true
+	case token.MUL:
+		return a * b, true
+	case token.AND:
+		return a & b, true
+	case token.OR:
+		return a | b, true
+	case token.XOR:
+		return a ^ b, true
+	case token.AND_NOT:
+		return a &^ b, true
+	case token.SHL:
+		if b >= 0 && b < 64 {
+			return a << uint(b), true
+		}
+	case token.SHR:
+		if b >= 0 && b < 64 {
+			return a >> uint(b), true
+		}
+	case token.QUO:
+		if b != 0 {
+			return a / b, true
+		}
+	case token.REM:
+		if b != 0 {
+			return a % b, true
+		}
+	}
+	return 0, false
 }
